@@ -114,11 +114,92 @@ class Compiler:
         )  # bytecode_pos -> (line, column)
         self._current_loc: Optional[Tuple[int, int]] = None  # Current source location
 
+    def _scope_catch_parameters(self, root: Node) -> None:
+        """Give every catch parameter a name of its own.
+
+        The parameter is visible in its catch block only: it neither overwrites
+        nor leaks into a variable of the same name outside the block. Variables
+        live in one table per function here, so the parameter and the references
+        to it inside the block are renamed to a name no source text can contain.
+        """
+        counter = [0]
+
+        def declares(func, name: str) -> bool:
+            if any(p.name == name for p in func.params):
+                return True
+            if isinstance(func, FunctionExpression) and func.id and func.id.name == name:
+                return True
+            declared: set = set()
+            self._collect_var_decls(func.body, declared)
+            return name in declared
+
+        def children(node):
+            for value in node.__dict__.values():
+                if isinstance(value, Node):
+                    yield value
+                elif isinstance(value, list):
+                    for item in value:
+                        if isinstance(item, Node):
+                            yield item
+
+        def rename(start, old: str, new: str) -> None:
+            """Rename the references to the variable `old` below start
+            (iteratively: syntax trees can be deeper than the host stack)."""
+            pending = [start]
+            while pending:
+                node = pending.pop()
+                if isinstance(node, Identifier):
+                    if node.name == old:
+                        node.name = new
+                elif isinstance(node, MemberExpression):
+                    pending.append(node.object)
+                    if node.computed:
+                        pending.append(node.property)
+                elif isinstance(node, Property):
+                    if node.computed:
+                        pending.append(node.key)
+                    pending.append(node.value)
+                elif isinstance(node, (BreakStatement, ContinueStatement)):
+                    pass
+                elif isinstance(node, LabeledStatement):
+                    pending.append(node.body)
+                elif isinstance(node, VariableDeclarator):
+                    # (`var e` names the function's variable)
+                    if node.init is not None:
+                        pending.append(node.init)
+                elif isinstance(
+                    node,
+                    (FunctionDeclaration, FunctionExpression, ArrowFunctionExpression),
+                ):
+                    if not declares(node, old):
+                        pending.append(node.body)
+                elif isinstance(node, CatchClause):
+                    # an inner parameter of the same name shadows this one
+                    if node.param is None or node.param.name != old:
+                        pending.append(node.body)
+                else:
+                    pending.extend(children(node))
+
+        def visit(start) -> None:
+            pending = [start]
+            while pending:
+                node = pending.pop()
+                if isinstance(node, CatchClause) and node.param is not None:
+                    counter[0] += 1
+                    old = node.param.name
+                    new = f"{old}\x00catch{counter[0]}"
+                    rename(node.body, old, new)
+                    node.param.name = new
+                pending.extend(children(node))
+
+        visit(root)
+
     def compile(self, node: Program) -> CompiledFunction:
         """Compile a program to bytecode."""
         body = node.body
 
         try:
+            self._scope_catch_parameters(node)
             ends_with_declaration = bool(body) and isinstance(
                 body[-1], FunctionDeclaration
             )
